@@ -1,7 +1,8 @@
 /* units/bat.c - proof units for src/write_batch.c (C04, C18, C11, C03, C01)
  *
- * The real write_batch.c, util/slice.c and util/buffer.c are included
- * unmodified (byte for byte).  The environment of ldb_batch_iterate (the
+ * The real write_batch.c is included unmodified (byte for byte); its callees in
+ * util/slice.c, util/buffer.c and util/coding.h are replaced by the contracts
+ * of contracts/buf.h and contracts/coding.h (enforced in groups buf / cod).  The environment of ldb_batch_iterate (the
  * handler callbacks, and ldb_memtable_add for ldb_batch_insert_into) is an
  * *independent decoder of the WriteBatch wire format*:
  *
@@ -15,6 +16,7 @@
  */
 #include "verif.h"
 #include "contracts/coding.h"
+#include "contracts/buf.h"
 
 #include "util/buffer.h"
 #include "util/coding.h"
@@ -127,8 +129,6 @@ void ldb_memtable_add(ldb_memtable_t *mt, ldb_seqnum_t sequence, ldb_valtype_t t
   spec_on_record(type == LDB_TYPE_VALUE ? 1 : 0, key, value, sequence);
 }
 
-#include "util/slice.c"
-#include "util/buffer.c"
 #include "write_batch.c"
 
 /* =================================================================== iter */
